@@ -1,6 +1,7 @@
 import Model.Dkg
 import Proofs.DkgFlags
 import Proofs.DkgOnce
+import Proofs.DkgHonest
 
 /-! # C08 — DKG qualification is fair: honest never blamed, bad dealing never accepted
 
@@ -302,6 +303,100 @@ theorem complaint_answer_any_order (s : St O) (k : Nat) (sc : Option Nat) (hk : 
          (if (raOk s k sc).disqualified then raOk s k sc else rcOk (raOk s k sc) k) :=
   complaint_answer_same s k sc hk hdq hwf
 
+/-! ### an honest dealer is never disqualified -/
+
+open Proofs.DkgCommute in
+/-- **no honest dealer is ever disqualified, whatever the other participants do**: at a receiver whose share matches
+    the dealer's vector, for every list of deliveries per round and every order, as long as every delivery is one
+    an honest dealer or an arbitrary (Byzantine) other participant can cause — the dealer sends nothing but its
+    vector, the receiver's share and valid answers; the others send anything — the vector and the share arrive in
+    the first round, at most `t` participants ever complain or are answered, and each of them is answered before
+    `End`: then `End` returns the receiver's share and the keys of the dealer's polynomial -/
+theorem honest_dealer_never_disqualified (H : Honest O) (K : Finset Nat) (s0 : St O) (h0 : HD H s0)
+    (hst0 : s0.sharesTimeout = false) (hct0 : s0.complaintsTimeout = false) (hK : K.card ≤ s0.threshold)
+    (hk0 : keysIn K s0) (hx0 : H.x0 ≠ 0) (hid : O.groupKeyIsIdentity H.v0 = false) (r1 r2 r3 : List Dl)
+    (ok1 : RoundOK' H K s0 false r1) (ok2 : RoundOK' H K s0 false r2) (ok3 : RoundOK' H K s0 true r3)
+    (hvec : ∃ e ∈ r1, ∃ d, ∀ t, CfgCT s0 false t → classify t e = .vec d)
+    (hshare : ∃ e ∈ r1, ∃ d, ∀ t, CfgCT s0 false t → classify t e = .share d)
+    (hans : ∀ k ∈ K, ∃ a, (∃ e ∈ r1, ∀ t, CfgCT s0 false t → classify t e = .ans k (some a)) ∨
+      (∃ e ∈ r2, ∀ t, CfgCT s0 false t → classify t e = .ans k (some a)) ∨
+      (∃ e ∈ r3, ∀ t, CfgCT s0 true t → classify t e = .ans k (some a))) :
+    exec s0 r1 r2 r3 = .keys H.x0 (O.groupKey H.v0) (O.pubShares H.v0) :=
+  honest_dealer_keys H K s0 h0 hst0 hct0 hK hk0 hx0 hid r1 r2 r3 ok1 ok2 ok3 hvec hshare hans
+
+open Proofs.DkgCommute in
+/-- the state right after `Start` satisfies the hypotheses on the state -/
+theorem honest_dealer_init (H : Honest O) (size threshold dealer : Nat) (hne : H.me ≠ dealer) (K : Finset Nat) :
+    HD H ({ size := size, threshold := threshold, me := H.me, dealer := dealer, running := true } : St O) ∧
+    keysIn K ({ size := size, threshold := threshold, me := H.me, dealer := dealer, running := true } : St O) :=
+  ⟨hd_init H size threshold dealer hne, fun k c hc => by cases hc⟩
+
+/-! ### non-vacuity of the honest-dealer theorem: a concrete run that meets every hypothesis -/
+
+section NonVacuity
+open Proofs.DkgCommute
+
+/-- a trivial crypto record: every vector of the right length parses, every share is valid -/
+def triv : Ops where
+  Vec := Unit
+  readVec := fun _ _ _ => some ()
+  checkLog := fun _ _ _ => true
+  readScalar := fun _ => some 1
+  writeScalar := fun _ => []
+  addScalar := fun a b => a + b
+  groupKey := fun _ => []
+  pubShares := fun _ => []
+  groupKeyIsIdentity := fun _ => false
+  sumVecs := fun _ => none
+  genPoly := fun _ _ => none
+  polyEval := fun _ _ => 0
+  vecBytes := fun _ => []
+  vecOfPoly := fun _ _ => ()
+
+def vb : Bytes := List.replicate (96 * 2) 0
+def sb : Bytes := tagShare :: List.replicate 32 0
+
+def Htriv : Honest triv := { v0 := (), vb := vb, x0 := 1, sb := sb, me := 1, shareOk := rfl }
+
+def s0 : St triv := { size := 3, threshold := 1, me := 1, dealer := 0, running := true }
+
+/-- non-vacuity: the dealer's vector and share delivered in round one, nobody complains -/
+example : exec s0 [.bcast 0 (tagVerifVec :: vb), .priv 0 sb] [] [] = .keys 1 [] [] := by
+  have hcl1 : ∀ t : St triv, CfgCT s0 false t → classify t (.bcast 0 (tagVerifVec :: vb)) = .vec vb := by
+    intro t ⟨h1, h2, _, _, _⟩
+    show classifyB t 0 (tagVerifVec :: vb) = _
+    unfold classifyB
+    have e1 : t.me = 1 := h1
+    have e2 : t.dealer = 0 := h2
+    simp [e1, e2, tagVerifVec]
+  have hcl2 : ∀ t : St triv, CfgCT s0 false t → classify t (.priv 0 sb) = .share sb := by
+    intro t ⟨h1, h2, _, _, _⟩
+    show (if t.me = 0 then Kind.noop else if 0 = t.dealer then Kind.share sb else Kind.noop) = _
+    have e1 : t.me = 1 := h1
+    have e2 : t.dealer = 0 := h2
+    simp [e1, e2]
+  refine honest_dealer_never_disqualified Htriv ∅ s0 (hd_init Htriv 3 1 0 (by decide)) rfl rfl (by simp)
+    (fun k c hc => by cases hc) (by decide) rfl _ _ _ ?_ ?_ ?_ ⟨_, by simp, vb, hcl1⟩ ⟨_, List.mem_cons_of_mem _ (by simp), sb, hcl2⟩
+    (fun k hk => by simp at hk)
+  · intro e he t ht
+    simp only [List.mem_cons, List.not_mem_nil, or_false] at he
+    rcases he with rfl | rfl
+    · rw [hcl1 t ht]
+      refine ⟨⟨rfl, ?_⟩, trivial, trivial⟩
+      unfold parseVec
+      have hth : t.threshold = 1 := ht.2.2.2.1
+      have hlen : vb.length = verifVectorSize * (t.threshold + 1) := by
+        rw [hth]; unfold vb verifVectorSize; rw [List.length_replicate]
+      rw [if_neg (fun hne => hne hlen)]
+      rfl
+    · rw [hcl2 t ht]
+      refine ⟨⟨rfl, ?_⟩, trivial, trivial⟩
+      rfl
+  · intro e he; cases he
+  · intro e he; cases he
+
+end NonVacuity
+
 end Props.C08
 
 #print axioms Props.C08.handlers_blame
@@ -318,3 +413,5 @@ end Props.C08
 #print axioms Props.C08.own_complaint_at_most_once
 #print axioms Props.C08.share_vector_any_order
 #print axioms Props.C08.complaint_answer_any_order
+#print axioms Props.C08.honest_dealer_never_disqualified
+#print axioms Props.C08.honest_dealer_init
